@@ -41,6 +41,11 @@ def expected_code_string(f):
         import signal
 
         name = f.get("sig") or f.get("code")
+        if isinstance(name, int):
+            try:
+                return "%s(-%d)" % (signal.Signals(name).name, name)
+            except ValueError:
+                return "UNKNOWN(-%d)" % name
         n = int(getattr(signal, name))
         return "%s(-%d)" % (name, n)
     code = f.get("code")
@@ -347,6 +352,10 @@ def c05(case, F):
                 v.append((_sig(case, F, "submit_accepted_after_shutdown"), witness_text(case, F, "submit() after shutdown returned a future")))
             elif e["exc"]["type"] != "ShutdownExecutorError":
                 v.append((_sig(case, F, "submit_after_shutdown_wrong_error", etype=e["exc"]["type"]), witness_text(case, F, "submit() after shutdown raised %s" % e["exc"]["type"])))
+    # the management threads end, they do not crash
+    for t in F.thread_exceptions:
+        if t["pid"] == F.driver_pid and (str(t.get("thread", "")).startswith("ExecutorManagerThread") or str(t.get("thread", "")).startswith("QueueFeederThread")):
+            v.append((_sig(case, F, "management_thread_crashed", thread=str(t.get("thread"))[:22], etype=t.get("etype")), witness_text(case, F, "%s died with %s during a graceful shutdown" % (t.get("thread"), t.get("etype")))))
     # clean handshake from the workers' side: none 'died', all reached normal interpreter exit
     for pid, w in F.workers().items():
         if pid not in F.atexit and F.final.get("driver_status") == 0 and F.main_returned and w.get("proc", "").count(":") == 0:
@@ -385,6 +394,11 @@ def c07(case, F):
             v.append((_sig(case, F, "executed_twice"), witness_text(case, F, "task %s executed %d times" % (tid, len(t["starts"])))))
         if d["state"] != "cancelled" and not _fut_expected_ok(f):
             v.append((_sig(case, F, "wrong_outcome"), witness_text(case, F, "future %s outcome %s != reference %r" % (name, json.dumps(d)[:200], f["submit"].get("exp")))))
+    for name, f in handed.items():
+        d = f["done"]
+        if d is not None and d["state"] == "result" and f["submit"]["spec"].get("k") == "rendezvous" and not d["value"][2]:
+            v.append((_sig(case, F, "missing_worker_not_respawned"), witness_text(case, F, "two dependent tasks submitted across an idle-timeout exit never ran side by side within %.0f s on a pool of max_workers>=2: the worker that timed out was not replaced" % f["submit"]["spec"].get("patience", 15))))
+            break
     for tid, t in F.tasks.items():
         if len(t["starts"]) != len(t["ends"]):
             v.append((_sig(case, F, "left_while_holding_task"), witness_text(case, F, "task %s started %d times but ended %d times: a worker left while holding it" % (tid, len(t["starts"]), len(t["ends"])))))
